@@ -25,7 +25,7 @@ def parseOp : List String → Option Op
   | _ => none
 
 /-- slack for real elapsed time: a sleep never ends early, and ends late by scheduling noise only -/
-def slackNs : Int := 1500000000
+def slackNs : Int := 500000000
 
 /-- `smwait`: the n-th wait of the real `StreamManager.resume` loop. The harness reports `gap draw bound` (ns):
 the measured time between two attempts, the jitter draw `rand.Intn(bound)` it obtained from the same PRNG seed,
@@ -43,6 +43,10 @@ def stepSm (d : DSt) (impl : String) : DSt × Reply :=
 
 def step (d : DSt) (fields : List String) (impl : String) : DSt × Reply :=
   if fields == ["smwait"] then stepSm d impl else
+  if fields == ["smnew"] then
+    -- the attempt that ends an outage: `resume` returns, the next outage gets a new zero-valued backoff
+    ({ d with s := { d.s with attempt := 0 }, om := { d.om with count := 0 }, oi := { d.oi with count := 0 } },
+     .det "ok" impl true true) else
   match parseOp fields with
   | none => (d, .bad)
   | some op =>
